@@ -110,8 +110,9 @@ class Shrinker:
                     if body[k].get("k") == "loop":
                         self.min_list(lambda p, i=i, k=k: p["steps"][i]["prog"]["body"][k]["body"],
                                       lambda p, v, i=i, k=k: p["steps"][i]["prog"]["body"][k].__setitem__("body", v) if v else None)
-                        self.min_list(lambda p, i=i, k=k: p["steps"][i]["prog"]["body"][k]["vals"],
-                                      lambda p, v, i=i, k=k: p["steps"][i]["prog"]["body"][k].__setitem__("vals", v) if v else None)
+                        if not body[k].get("range"):
+                            self.min_list(lambda p, i=i, k=k: p["steps"][i]["prog"]["body"][k]["vals"],
+                                          lambda p, v, i=i, k=k: p["steps"][i]["prog"]["body"][k].__setitem__("vals", v) if v else None)
                 self.min_list(lambda p, i=i: p["steps"][i]["prog"]["includes"],
                               lambda p, v, i=i: p["steps"][i]["prog"].__setitem__("includes", v))
                 self.attempt(lambda c, i=i: c["steps"][i]["prog"].__setitem__("comments", False))
